@@ -151,6 +151,13 @@ def gen_set(rng, nlangs):
             e = rng.choice([nxt, s + (nxt - s) // 2]) if nxt - s >= 2 else nxt
             lst.append(Caption(s * 1000, e * 1000, [T(f"{l}#{j}")]))
         caps[l] = CaptionList(lst)
+    if rng.random() < 0.35:
+        # every caption refers to one style class that says nothing about a language (what DFXPReader returns for
+        # documents whose paragraphs share a style)
+        for lst in caps.values():
+            for cp in lst:
+                cp.style = {"class": "shared"}
+        return langs, CaptionSet(caps, styles={"shared": {"color": "red", "font-family": "Arial"}})
     return langs, CaptionSet(caps)
 
 
